@@ -4,6 +4,7 @@ import (
 	"fmt"
 	"os"
 	"path/filepath"
+	"time"
 
 	"github.com/mit-pdos/go-journal/vrt"
 	"verif/fsx"
@@ -43,7 +44,8 @@ func C14(r *report.Report, tier string) {
 	hs := append(concHarnesses(), c14Extra()...)
 	r.Rule = fmt.Sprintf("the %d C03 harnesses plus shutdown-while-shrinking and statistics-during-RPCs, every schedule with <=%d deviations, executed in a -race build in which the scheduler hands control between goroutines through a //go:norace spin on a plain word (no happens-before edge of its own): the race detector then sees exactly the program's synchronisation (its mutexes, goroutine creation, atomics) and judges each execution; a report counts if both access stacks lie in go-nfsd/go-journal code. distinct_nontrivial = distinct observable outcomes over all harnesses", len(hs)-2, bound)
 	var sums []*ExploreSummary
-	for _, h := range hs {
+	for hi, h := range hs {
+		fairShare(hi, len(hs))
 		if timeUp() {
 			r.Exhaustive = false
 			r.Note("harness %s not run (time budget)", h.Name)
@@ -59,6 +61,7 @@ func C14(r *report.Report, tier string) {
 		s.Outcomes = map[string]int64{"(distinct outcomes)": int64(len(s.Outcomes))}
 		sums = append(sums, s)
 	}
+	HarnessDeadline = time.Time{}
 	r.Extra["harnesses"] = sums
 	r.Extra["bounds"] = map[string]int{"deviations": bound}
 	r.Assumptions = append(r.Assumptions, "the race detector's happens-before analysis (no weak-memory effects beyond it)", "workers run with GOMAXPROCS=1")
